@@ -32,10 +32,23 @@ fn float_case<R: dashu_float::round::Round, const B: Word>(log: &mut Log, mode: 
             outs.push("ctx", guarded(|| fval(&ctx.$m(x.repr(), y.repr()).value())));
         }};
     }
+    // the iterator forms (float/src/iter.rs): Sum / Product fold from ZERO / ONE with the operators
+    macro_rules! fold {
+        ($f:ident) => {{
+            outs.push(concat!(stringify!($f), ":v"), guarded(|| fval(&vec![x.clone(), y.clone()].into_iter().$f::<FBig<R, B>>())));
+            outs.push(concat!(stringify!($f), ":r"), guarded(|| fval(&[x.clone(), y.clone()].iter().$f::<FBig<R, B>>())));
+        }};
+    }
     match op {
-        "add" => bin!(+, +=, add),
+        "add" => {
+            bin!(+, +=, add);
+            fold!(sum);
+        }
         "sub" => bin!(-, -=, sub),
-        "mul" => bin!(*, *=, mul),
+        "mul" => {
+            bin!(*, *=, mul);
+            fold!(product);
+        }
         "div" => bin!(/, /=, div),
         "sqr" => {
             outs.push("m", guarded(|| fval(&x.sqr())));
